@@ -243,7 +243,7 @@ def job_select(kind):
 
 
 # ------------------------------------------------------------------ concrete oracle
-def replay_step(p):
+def _replay_step_form(p, conv):
     ok, bad = pool()
     for k, f in enumerate(ok):
         f.metadata.pop('order_label', None)
@@ -252,7 +252,7 @@ def replay_step(p):
     cad = CAD.OrderedCadence(order=ORDER) if p['kind'] == 'ordered' else CAD.Cadence()
     cad.frames = [ok[s] for s in p['state']]
     ref = list(cad.frames)
-    ob, op, i, n = p['ob'], p['op'], p['i'], len(p['state'])
+    ob, op, i, n = p['ob'], p['op'], conv(p['i']), len(p['state'])
     v = None if ob is None else (ok[ob] if ob < 4 else bad[ob - 4])
     o = dict(cad=cad, ref=ref, v=v, valid=ob is not None and (ob < 4 or (n == 0 and ob - 4 < NBADFRAMES)), had=ob is not None and ob < 4 and 'order_label' in v.metadata,
              res=None, exc=None, meta_before=None if (ob is None or ob >= 4 + NBADFRAMES) else dict(v.metadata), ob=ob, lab=p['lab'])
@@ -275,8 +275,20 @@ def replay_step(p):
             o['res'] = cad[i]
     except (TypeError, AttributeError, IndexError) as e:
         o['exc'] = e
-    msg = judge(p['kind'], op, o, i, ok)
+    msg = judge(p['kind'], op, o, int(i), ok)
     return bool(msg), msg or 'cadence behaves like the list model'
+
+
+def replay_step(p):
+    """the index in every form a Python list accepts: int and NumPy integer scalars (anything with __index__)"""
+    forms = [('int', int)]
+    if p['op'] in ('insert', 'setitem', 'delitem', 'pop', 'getitem'):
+        forms += [('numpy.int64', np.int64), ('numpy.int32', np.int32), ('numpy.intp', np.intp)]
+    for name, conv in forms:
+        bad, msg = _replay_step_form(p, conv)
+        if bad:
+            return True, f"index given as {name}: {msg}"
+    return False, 'cadence behaves like the list model'
 
 
 def replay_select(p):
